@@ -66,6 +66,36 @@ CLAIMED.update({
         note="Trusted: TLC, the projection in harness/daemon/gr.rs; the table half is sampled conformance (see C06)."),
 })
 
+CLAIMED.update({
+    "C10": dict(
+        category="model_checking", design_ref="DESIGN.md 5 (C10)",
+        technique="TLA+ spec GrHelper.tla (GrState machine + driver glue + routes with stale/LLGR marks) exhausted by TLC + replay of "
+                  "every machine transition on gr::GrState + model behaviours executed end-to-end on the real session code "
+                  "(accept_connection / PeerSession::run / timers) against a scripted BGP speaker over loopback",
+        text="TLC proves the C10 invariants on the complete (finite) composition for every session-end reason class; the pure machine "
+             "is replayed exhaustively (complete projection); the driver glue is replayed through the real run()/session_loop/"
+             "apply_disconnect/process_effects/timer tasks with a real TableManager, comparing GrState, live timers and the peer's "
+             "routes with their marks after every step and evaluating the core invariant on the real state.",
+        note="Trusted: TLC; projections in harness/daemon/{gr,event}.rs; timers observed as live one-shot senders and fired through "
+             "them (durations are hours); session-end classes hold-timer and local Cease are not executed by the driver replay."),
+    "C12": dict(
+        category="model_checking", design_ref="DESIGN.md 5 (C12)",
+        technique="TLA+ spec Rov.tla (RFC 6811 over a W-bit space, VRP table as a set) exhausted by TLC + every reachable VRP set "
+                  "replayed on the real RpkiTable at several IPv4/IPv6 bit offsets",
+        text="All VRP sets up to the bound over a 3-bit address space, all routes and all origin derivations are enumerated by "
+             "TLC with the RFC 6811 state computed by the specification; the real validate(), table contents and "
+             "insert/remove/drop-source algebra are compared for every set at offsets on and off byte boundaries.",
+        note="Trusted: TLC; the embedding of the W-bit space; beyond-bound VRP set sizes and arbitrary real prefixes are not enumerated."),
+    "C13": dict(
+        category="model_checking", design_ref="DESIGN.md 5 (C13)",
+        technique="TLA+ spec RtrClient.tla (client + conforming cache + second cache) exhausted by TLC + every transition replayed on "
+                  "the real RpkiClient::serve_inner over tokio::io::duplex with model-chosen fragmentation",
+        text="The model is finite and fully explored; every transition (PDU type x fragmentation point x state) is executed on the "
+             "real client with a real TableManager and the VRPs installed per cache compared after every PDU, including progress "
+             "past PDU types the client does not use and removal at stream end.",
+        note="Trusted: TLC; the cache is conforming; PDU consumption is observed through the client's per-type counters."),
+})
+
 NOT_YET = {}
 
 HOOK_COMMITS = []
